@@ -11,10 +11,17 @@ import (
 
 // C01 — Layout always returns: no panic, process abort, hang or runaway memory.
 
-// budgetFor returns the simulated-time / depth / memory budget for a graph of the given size.
-// The table is committed in budgets.go and was produced by `./check C01 --mode calibrate`.
+// budgetFor returns the simulated-time / depth / memory budget for a spec (sim/sup/budgets.go, budget_table.go).
 func budgetFor(nEdges, nNodes int) spec.Budgets {
-	return spec.Budgets{Ticks: tickBudget(nEdges, nNodes), Frame: frameBudget(nEdges, nNodes), Depth: depthBudget(nEdges, nNodes), Bytes: byteBudget}
+	return budgetForFam("", false, nEdges, nNodes)
+}
+
+func budgetForFam(fam string, nsPositioner bool, nEdges, nNodes int) spec.Budgets {
+	b := spec.Budgets{Ticks: tickBudgetFam(fam, nsPositioner, nEdges, nNodes), Frame: frameBudget(nEdges, nNodes), Depth: depthBudget(nEdges, nNodes), Bytes: byteBudget}
+	if os.Getenv("VERIF_CALIBRATE") != "" {
+		b.Ticks = 200_000_000_000 // calibration: measure, do not cut
+	}
+	return b
 }
 
 func c01Resolutions(r *rng, o spec.Options) []spec.Resolution {
@@ -42,7 +49,7 @@ func (cx *Ctx) runC01() {
 	for i := range jobs {
 		es, fam := genGraph(&r, gc)
 		c := spec.Call{Edges: es, Opts: genOptions(&r, es, gc)}
-		jobs[i] = &spec.Job{ID: i, Kind: "multi", Calls: []spec.Call{c}, Res: c01Resolutions(&r, c.Opts), Budgets: budgetFor(len(es), nodeCount(es))}
+		jobs[i] = &spec.Job{ID: i, Kind: "multi", Calls: []spec.Call{c}, Res: c01Resolutions(&r, c.Opts), Budgets: budgetForFam(fam, c.Opts.P4 == "ns", len(es), nodeCount(es))}
 		fams[i] = fam
 	}
 	cx.phase("C01: main batch")
@@ -66,6 +73,7 @@ func (cx *Ctx) runC01() {
 		job *spec.Job
 		j   int
 		key string
+		fam string
 	}
 	var cands []cand
 	var dump *os.File
@@ -120,7 +128,7 @@ func (cx *Ctx) runC01() {
 				k := failKey(o)
 				failByKey[k]++
 				if failByKey[k] <= 3 {
-					cands = append(cands, cand{jr.Job, j, k})
+					cands = append(cands, cand{jr.Job, j, k, fams[i]})
 				}
 			}
 		}
@@ -153,7 +161,7 @@ func (cx *Ctx) runC01() {
 			cx.report(cd.key, "", nil)
 			continue
 		}
-		cx.c01Minimise(cd.job, cd.j, cd.key)
+		cx.c01Minimise(cd.job, cd.j, cd.key, cd.fam)
 	}
 	for k, n := range failByKey {
 		for _, v := range cx.Viol {
@@ -218,8 +226,8 @@ func isSimplePath(es [][]string) bool {
 	return true
 }
 
-func (cx *Ctx) c01Fails(c spec.Call, res spec.Resolution, key string) (bool, []JobResult) {
-	job := &spec.Job{ID: 1, Kind: "multi", Calls: []spec.Call{c}, Res: []spec.Resolution{res}, Budgets: budgetFor(len(c.Edges), nodeCount(c.Edges)), WantFull: false}
+func (cx *Ctx) c01Fails(c spec.Call, res spec.Resolution, key, fam string) (bool, []JobResult) {
+	job := &spec.Job{ID: 1, Kind: "multi", Calls: []spec.Call{c}, Res: []spec.Resolution{res}, Budgets: budgetForFam(fam, c.Opts.P4 == "ns", len(c.Edges), nodeCount(c.Edges)), WantFull: false}
 	one := *cx.simFresh
 	one.N = 1
 	rs := one.Run([]*spec.Job{job}, nil)
@@ -227,10 +235,10 @@ func (cx *Ctx) c01Fails(c spec.Call, res spec.Resolution, key string) (bool, []J
 	return v && k == key, rs
 }
 
-func (cx *Ctx) c01Minimise(job *spec.Job, j int, key string) {
+func (cx *Ctx) c01Minimise(job *spec.Job, j int, key, fam string) {
 	c := job.Calls[0]
 	res := job.Res[j]
-	ok, _ := cx.c01Fails(c, res, key)
+	ok, _ := cx.c01Fails(c, res, key, fam)
 	if !ok {
 		cx.trouble("C01 failure %q did not reproduce when re-run alone (edges %s)", key, edgesText(c.Edges))
 		return
@@ -246,13 +254,13 @@ func (cx *Ctx) c01Minimise(job *spec.Job, j int, key string) {
 		simple = nil
 	}
 	for _, simple := range simple {
-		if ok, _ := cx.c01Fails(c, simple, key); ok {
+		if ok, _ := cx.c01Fails(c, simple, key, fam); ok {
 			res = simple
 			break
 		}
 	}
-	sc := shrinkCall(c, func(t spec.Call) bool { ok, _ := cx.c01Fails(t, res, key); return ok }, budget)
-	final := spec.Job{ID: 0, Kind: "multi", Calls: []spec.Call{sc}, Res: []spec.Resolution{res}, Budgets: budgetFor(len(sc.Edges), nodeCount(sc.Edges))}
+	sc := shrinkCall(c, func(t spec.Call) bool { ok, _ := cx.c01Fails(t, res, key, fam); return ok }, budget)
+	final := spec.Job{ID: 0, Kind: "multi", Calls: []spec.Call{sc}, Res: []spec.Resolution{res}, Budgets: budgetForFam(fam, sc.Opts.P4 == "ns", len(sc.Edges), nodeCount(sc.Edges))}
 	one := *cx.simFresh
 	one.N = 1
 	rs := one.Run([]*spec.Job{&final}, nil)
